@@ -33,7 +33,7 @@ from ..common import MachineryError, dumps
 STANDALONE = True
 NONE = 99
 NANC = [[0, 0], [0, 0]]
-PROFILES = ['T1', 'T2', 'SI', 'CX', 'DS', 'PS', 'PN', 'LC']
+PROFILES = ['T1', 'T2', 'SI', 'CX', 'DS', 'PS', 'PN', 'LC', 'Z0']
 # real / imaginary parts and discretisations are not defined for integer dtypes (real_space raises)
 INT_UNDEFINED = {'real', 'imag', 'setreal', 'setimag', 'conj', 'conj_out'}
 
@@ -75,11 +75,14 @@ class Concr(object):
         if k not in self._sp:
             dtype = self.dtype(cx, dt)
             kw = {}
-            if self.weight is not None:
+            shape = self.cshape(shp)
+            if self.weight == 'array':
+                n = int(np.prod(shape)) if shape != () else 1
+                kw['weighting'] = np.arange(1, n + 1, dtype=float).reshape(shape)
+            elif self.weight is not None:
                 kw['weighting'] = self.weight
             if self.exponent != 2.0:
                 kw['exponent'] = self.exponent
-            shape = self.cshape(shp)
             if self.flavour == 'rn' and not self.isint:
                 self._sp[k] = (odl.cn if cx else odl.rn)(shape, dtype=dtype, **kw)
             else:
@@ -105,6 +108,8 @@ def concretisations(profile, tier):
             Concr('float32')]
     if profile in ('T1', 'T2', 'SI', 'PS', 'LC'):
         base.append(Concr('int64', flavour='ts'))
+    if profile != 'LC':
+        base.append(Concr('float64', weight='array'))
     if profile == 'LC':
         # rows of 3 * mult entries straddle _lincomb_impl's thresholds (100, 50000); the long one is expensive and
         # therefore appears once in the rotation
@@ -230,24 +235,43 @@ class World(object):
         return self.c.tspace(shp, cx, dt)
 
     # ---- spellings --------------------------------------------------------------------------------------------
-    def py_index(self, idx, no_one_tuple=False):
+    def py_index(self, idx, no_one_tuple=False, target=None):
+        """The Python index expression of an abstract index.  target: the indexed leaf object (shape of whole-object
+        masks; an ODL element as target allows index TENSORS for a single-entry index)."""
+        rng = self.rng
         ents = []
+        odl_ok = len(idx) == 1 and target is not None and is_elem(target) and not is_prod(target)
         for e in idx:
             if e['k'] == 'int':
-                ents.append(int(e['a']) if self.rng.random() < 0.7 else np.int64(e['a']))
+                ents.append(int(e['a']) if rng.random() < 0.7 else np.int64(e['a']))
             elif e['k'] == 'sl':
                 a = None if e['a'] == NONE else int(e['a'])
                 b = None if e['b'] == NONE else int(e['b'])
                 s = int(e['s'])
-                if s == 1 and self.rng.random() < 0.5:
+                if s == 1 and rng.random() < 0.5:
                     s = None
                 ents.append(slice(a, b, s))
-            else:
+            elif e['k'] == 'list':
                 ents.append([int(t) for t in e['l']])
+            elif e['k'] == 'arr':
+                a = np.array([int(t) for t in e['l']], dtype=rng.choice(['int64', 'int32', 'intp']))
+                if odl_ok and rng.random() < 0.4:
+                    a = odl.tensor_space(a.shape, dtype=a.dtype).element(a)
+                ents.append(a)
+            elif e['k'] in ('mask', 'maskall'):
+                a = np.array([bool(t) for t in e['l']], dtype=bool)
+                if e['k'] == 'maskall':
+                    a = a.reshape(np.shape(raw(target)))
+                if odl_ok and rng.random() < 0.4:
+                    a = odl.tensor_space(a.shape, dtype=bool).element(a)
+                ents.append(a)
+            else:
+                raise MachineryError('views: unknown index entry %r' % (e,))
         if len(ents) == 1:
             # x[(e,)] is x[e] for arrays; for product elements only the plain spelling is used (the 1-tuple form of
-            # __setitem__ is not described anywhere)
-            return ents[0] if no_one_tuple or self.rng.random() < 0.7 or isinstance(ents[0], list) else (ents[0],)
+            # __setitem__ is not described anywhere); lists and index arrays are never wrapped
+            plain = no_one_tuple or rng.random() < 0.7 or not isinstance(ents[0], (int, np.integer, slice))
+            return ents[0] if plain else (ents[0],)
         return tuple(ents)
 
     def scalar(self, c, cx):
@@ -301,10 +325,10 @@ class World(object):
             if A['how'] == 'parts' and len(A['idx']) == 1 and A['idx'][0]['k'] == 'int':
                 i = int(A['idx'][0]['a'])
                 return lambda: ('obj', X.parts[i])
-            ix = self.py_index(A['idx'], is_prod(X))
+            ix = self.py_index(A['idx'], is_prod(X), self.descend(X, A['idx'])[0])
             return lambda: ('obj', X[ix])
         if op == 'setitem':
-            ix = self.py_index(A['idx'], is_prod(X))
+            ix = self.py_index(A['idx'], is_prod(X), self.descend(X, A['idx'])[0])
             v = self.value(A, X, xi)
 
             def f():
@@ -324,6 +348,15 @@ class World(object):
             how = A['how']
             if is_prod(X):
                 return (lambda: ('obj', X.asarray())) if rng.random() < 0.5 else (lambda: ('obj', np.asarray(X)))
+            if how.startswith('np.asarray(dtype='):
+                dt = self.c.dtype(xi['cx'], xi['dt'] if how.endswith('same)') else ('other' if xi['dt'] == 'same' else 'same'))
+                spell = rng.choice([dt, dt.name, dt.type])
+                k = rng.randrange(3)
+                if k == 0:
+                    return lambda: ('obj', np.asarray(X, dtype=spell))
+                if k == 1:
+                    return lambda: ('obj', X.__array__(dt))
+                return lambda: ('obj', np.array(X, dtype=spell, copy=False))
             if how == 'asarray':
                 return lambda: ('obj', X.asarray())
             if how == 'np.asarray':
@@ -338,6 +371,12 @@ class World(object):
             order = None if A['ord'] == 'N' else A['ord']
             if order is not None and rng.random() < 0.3:
                 order = order.lower()
+            if A['how'] == 'data_ptr':
+                sp = self.space_for('tensor', xi['shp'], xi['cx'])
+                ptr = X.data_ptr if hasattr(X, 'data_ptr') else raw(X).ctypes.data
+                if isinstance(ptr, np.integer) or rng.random() < 0.5:
+                    ptr = int(ptr)
+                return lambda: ('obj', sp.element(data_ptr=ptr, order=order))
             if A['how'] == 'array_wrap':
                 e0 = self.space_for('tensor', xi['shp'], xi['cx']).element()
                 return lambda: ('obj', e0.__array_wrap__(X))
@@ -430,7 +469,7 @@ class World(object):
         dummy = np.empty(np.shape(raw(T)), dtype=bool)
         saved, self.rng = self.rng, random.Random(0)
         try:
-            return dummy[self.py_index(idx)].shape
+            return dummy[self.py_index(idx, False, dummy)].shape
         finally:
             self.rng = saved
 
@@ -665,7 +704,7 @@ def replay_behaviour(profile, beh, concr, seed, rec=None):
 def concr_ids(ln, ncon, nall, seed):
     """Which concretisations behaviour number ln is replayed under: the first one always rotates with the line number,
     so every concretisation sees every ncon-th..nall-th behaviour; the seed shifts the rotation."""
-    return sorted({(ln + seed + k * 3) % nall for k in range(ncon)})
+    return sorted({(ln + seed + k) % nall for k in range(min(ncon, nall))})
 
 
 def dec_num(v):
@@ -691,6 +730,28 @@ def read_export(path):
     return first['init'], n
 
 
+def array_weight_ok(init, hist):
+    """Array-weighted tensor spaces cannot hand out derived spaces (x[idx], astype(other)): C20's open finding.  True if
+    the behaviour never asks a tensor ELEMENT for a non-scalar x[idx] or an astype to another dtype."""
+    ty = [o['ty'] if o['k'] == 'leaf' else 'prod' for o in init['objs']]
+    for h in hist:
+        A, r = h['act'], h['obs']['ret']
+        if A['op'] == 'getitem' and r['k'] in ('new', 'val') and ty[A['x'] - 1] != 'arr':
+            if not (ty[A['x'] - 1] == 'prod' and len(A['idx']) == 1):
+                return False
+        if A['op'] == 'copy' and A['how'] == 'astype_other':
+            return False
+        if r['k'] == 'new':
+            new = 'arr' if (A['op'] == 'asarray' or (A['op'] == 'getitem' and ty[A['x'] - 1] == 'arr')) else (
+                'prod' if (A['op'] == 'pelement' or (A['op'] in ('copy', 'getitem') and ty[A['x'] - 1] == 'prod'
+                                                      and A['idx'][-1]['k'] != 'int' if A['op'] == 'getitem' else
+                                                      A['op'] == 'copy' and ty[A['x'] - 1] == 'prod')) else 'elem')
+            while len(ty) < r['o'] - 1:
+                ty.append('elem')          # parts registered by a deep copy of a product
+            ty.append(new)
+    return True
+
+
 def _replay_chunk(args):
     profile, path, init, lo, hi, ncon, tier, seed, rec_every = args
     concs = concretisations(profile, tier)
@@ -709,6 +770,8 @@ def _replay_chunk(args):
             for k, ci in enumerate(concr_ids(ln, ncon, len(concs), seed)):
                 c = concs[ci]
                 if c.isint and ops & INT_UNDEFINED:
+                    c = concs[0]
+                if c.weight == 'array' and not array_weight_ok(init, beh['hist']):
                     c = concs[0]
                 if len(c._sp) > 200:
                     c._sp = {}
@@ -784,7 +847,7 @@ def expected_kind(w, A):
     if op == 'conj':
         return 'val', 0
     if op == 'asarray':
-        return ('val' if is_prod(X) else 'new'), 0
+        return ('val' if (is_prod(X) or A['how'].startswith('np.asarray(dtype=')) else 'new'), 0
     if op == 'real':
         return ('new' if (not is_prod(X) and xi['sk'] == 'discr') else 'val'), 0
     if op == 'imag':
@@ -797,6 +860,8 @@ def expected_kind(w, A):
         if len(rest) == nd and all(e['k'] == 'int' for e in rest):
             return 'scalar', 0
         if isinstance(T, odl.discr.discr_space.DiscretizedSpaceElement):
+            return 'val', 0
+        if is_elem(T) and any(e['k'] in ('arr', 'mask', 'maskall') for e in rest):
             return 'val', 0
         return 'new', 0
     raise MachineryError('views: expected_kind: unknown op %r' % op)
@@ -874,7 +939,7 @@ class Driver(object):
         shapes1 = [(1,), (2,), (3,), (5,), (6,)]
         shapes2 = [(2, 2), (3, 2), (1, 3), (2, 1), (3, 4), (2, 3)]
         if sc == 'T':
-            shp = rng.choice(shapes1 + shapes2)
+            shp = rng.choice(shapes1 + shapes2 + [(0,), (0, 2), (2, 0)])
             whole('elem', 'tensor', False, buf(shp), shp)
             whole('arr', 'tensor', False, buf(shp), shp)
             whole('arr', 'tensor', False, buf(shp), shp, 'other')
@@ -892,7 +957,7 @@ class Driver(object):
             whole('elem', 'discr', False, buf(shp), shp)
             whole('elem', 'tensor', False, buf(shp), shp)
         elif sc == 'P':
-            s1, s2 = rng.choice(shapes1), rng.choice(shapes1 + shapes2[:2])
+            s1, s2 = rng.choice(shapes1 + [(0,)]), rng.choice(shapes1 + shapes2[:2])
             for shp in (s1, s2, s1, s1):
                 whole('elem', 'tensor', False, buf(shp), shp)
             whole('elem', 'discr', False, buf(s2), s2)
@@ -911,7 +976,7 @@ class Driver(object):
         return {'bufs': bufs, 'objs': objs}
 
     # ---- random ingredients ----------------------------------------------------------------------------------
-    def rand_axis(self, n, allow_list=True, distinct=False):
+    def rand_axis(self, n, allow_list=True, distinct=False, allow_arr=True):
         rng = self.rng
         r = rng.random()
         if r < 0.25 and n > 0:
@@ -921,21 +986,45 @@ class Driver(object):
             b = rng.choice([None, None, rng.randrange(-n - 2, n + 3)])
             s = rng.choice([1, 1, 1, 2, -1, -1, -2, 3])
             return I_sl(a, b, s)
+        if allow_arr and rng.random() < 0.3:
+            flags = [rng.randrange(2) for _ in range(n)]
+            return {'k': 'mask', 'a': 0, 'b': 0, 's': 0, 'l': flags}
         k = rng.randrange(1, min(n, 3) + 1)
         pos = rng.sample(range(n), k)
-        return I_list([p - n if rng.random() < 0.3 else p for p in pos])
+        ent = I_list([p - n if rng.random() < 0.3 else p for p in pos])
+        if allow_arr and rng.random() < 0.4:
+            ent['k'] = 'arr'
+        return ent
 
     def rand_index(self, shape, for_set=False):
         rng = self.rng
         nd = len(shape)
         if self.c.mult > 1:                  # long rows: only axis 0 may be indexed
             return [self.rand_axis(shape[0])] if nd == 2 else [I_sl(None, None, 1)]
+        if rng.random() < 0.08:
+            n = int(np.prod(shape))
+            return [{'k': 'maskall', 'a': 0, 'b': 0, 's': 0, 'l': [rng.randrange(2) for _ in range(n)]}]
         if nd == 1 or rng.random() < 0.35:
             return [self.rand_axis(shape[0])]
         e1, e2 = self.rand_axis(shape[0]), self.rand_axis(shape[1])
-        if e1['k'] == 'list' and e2['k'] == 'list':
-            m = min(len(e1['l']), len(e2['l']))
-            e1, e2 = I_list(e1['l'][:m]), I_list(e2['l'][:m])
+        adv = ('list', 'arr', 'mask')
+        if e1['k'] in adv and e2['k'] in adv:
+            # two advanced entries are paired point-wise: equal numbers of selected positions
+            def npos(e):
+                return sum(e['l']) if e['k'] == 'mask' else len(e['l'])
+            if npos(e1) != npos(e2):
+                m = min(npos(e1), npos(e2))
+                if m == 0:
+                    return [e1]
+                def cut(e, n_):
+                    if e['k'] == 'mask':
+                        keep, fl = 0, []
+                        for f in e['l']:
+                            fl.append(1 if (f and keep < m) else 0)
+                            keep += 1 if f else 0
+                        return dict(e, l=fl)
+                    return dict(e, l=e['l'][:m])
+                e1, e2 = cut(e1, shape[0]), cut(e2, shape[1])
         return [e1, e2]
 
     def sel_info(self, T, idx):
@@ -945,7 +1034,7 @@ class Driver(object):
         w = self.w
         saved, w.rng = w.rng, random.Random(0)
         try:
-            sel = dummy[w.py_index(idx)]
+            sel = dummy[w.py_index(idx, False, dummy)]
         finally:
             w.rng = saved
         return np.shape(sel), np.ravel(sel)
@@ -971,7 +1060,7 @@ class Driver(object):
             return {'k': 'seq', 'c': CZ, 'vals': [num(k + 1) for k in range(m)], 'o': 0}
         if r < 0.7 and len(shp) == 2 and mult == 1:
             return {'k': 'row', 'c': CZ, 'vals': [num(10 * (k + 1)) for k in range(shp[1])], 'o': 0}
-        adv = any(e['k'] == 'list' for e in idx)       # NumPy defines overlapping source and target for basic indices only
+        adv = any(e['k'] in ('list', 'arr', 'mask', 'maskall') for e in idx)   # NumPy defines overlap for basic indices only
         cands = [i + 1 for i, o in enumerate(w.objs) if not is_prod(o) and np.shape(raw(o)) == shp and
                  (cx or not np.iscomplexobj(raw(o))) and
                  not (adv and raw(o).size and raw(T).size and np.shares_memory(raw(o), raw(T)))]
@@ -1000,6 +1089,10 @@ class Driver(object):
             menu += ['lincomb'] * 6 + ['ibin'] * 3 + ['getitem'] * 4
         op = rng.choice(menu)
         if op == 'getitem':
+            if self.c.weight == 'array':
+                leaves = [i for i in leaves if w.info[i - 1]['ty'] == 'arr']     # x[idx] of array-weighted elements: C20
+                if not leaves:
+                    return None
             x = rng.choice(leaves)
             return act('getitem', x=x, idx=self.rand_index(np.shape(raw(w.objs[x - 1]))[:-1] + ((w.info[x - 1]['shp'][-1],) if w.info[x - 1]['shp'] else ())))
         if op == 'setitem':
@@ -1016,6 +1109,8 @@ class Driver(object):
             x = rng.choice(elems)
             how = rng.choice(['copy', 'copy.copy'] if is_prod(w.objs[x - 1]) else
                              ['copy', 'copy.copy', 'astype', 'astype_other'])
+            if how == 'astype_other' and self.c.weight == 'array':
+                how = 'astype'
             return act('copy', x=x, how=how)
         if op == 'asarray':
             x = rng.choice(elems)
@@ -1024,7 +1119,10 @@ class Driver(object):
                 return None
             if is_prod(X) and any(is_prod(p) for p in X.parts):
                 return None
-            return act('asarray', x=x, how=rng.choice(['asarray', 'np.asarray', 'data', '__array__']))
+            hows = ['asarray', 'np.asarray', 'data', '__array__']
+            if not is_prod(X):
+                hows += ['np.asarray(dtype=same)', 'np.asarray(dtype=other)']
+            return act('asarray', x=x, how=rng.choice(hows))
         if op == 'asarray_out':
             ys = [i for i in leaves if w.info[i - 1].get('whole') and w.info[i - 1]['ty'] == 'arr' and w.info[i - 1]['dt'] == 'same']
             xs = [i for i in leaf_e if w.info[i - 1]['dt'] == 'same']
@@ -1037,9 +1135,15 @@ class Driver(object):
         if op == 'wrap':
             x = rng.choice(leaves)
             inf = w.info[x - 1]
-            how = rng.choice(['tensor', 'tensor', 'discr', 'array_wrap'])
+            how = rng.choice(['tensor', 'tensor', 'discr', 'array_wrap', 'data_ptr'])
             if (isint or 0 in inf['shp']) and how == 'discr':
                 how = 'tensor'
+            if how == 'data_ptr':
+                # the pointer of a whole contiguous array of the right dtype; order as the memory is laid out
+                if not (inf.get('whole') and inf['dt'] == 'same' and inf['shp'] and 0 not in inf['shp'] and self.c.mult == 1):
+                    return None
+                order = rng.choice(['C', 'F']) if len(inf['shp']) == 1 else inf['lay']
+                return act('wrap', x=x, ord=order, how='data_ptr')
             order = 'N'
             if inf.get('laykn') and rng.random() < 0.5 and self.c.mult == 1:
                 order = rng.choice(['C', 'F'])
@@ -1139,7 +1243,7 @@ class Driver(object):
                 idx.append(I_int(i))
                 T = T.parts[i]
             if is_prod(T):
-                e = self.rand_axis(len(T.parts), distinct=True)
+                e = self.rand_axis(len(T.parts), distinct=True, allow_arr=False)
                 if e['k'] == 'sl' and len(range(len(T.parts))[slice(None if e['a'] == NONE else e['a'],
                                                                      None if e['b'] == NONE else e['b'], e['s'])]) == 0:
                     return None
@@ -1152,6 +1256,8 @@ class Driver(object):
                 if not idx:
                     return None
             if op == 'pgetitem':
+                if self.c.weight == 'array' and not is_prod(T):
+                    return None
                 how = 'parts' if (len(idx) == 1 and idx[0]['k'] == 'int' and rng.random() < 0.4) else ''
                 return act('getitem', x=x, idx=idx, how=how)
             # value
@@ -1216,9 +1322,10 @@ def run_episode(tid, seed, scen, concr, length, events, stats):
     drv = Driver(rng, scen, concr)
     init = drv.init_state()
     w = World(init, concr, rng)
-    for inf in w.info:
+    for inf, o in zip(w.info, init['objs']):
         inf['whole'] = True
         inf['laykn'] = True
+        inf['lay'] = init['bufs'][o['b'] - 1]['lay']
     vals, sh = w.observe()
     events.append({'tid': tid, 'act': act('init'), 'init': init,
                    'obs': {'vals': vals, 'sh': sh, 'ret': {'k': 'none', 'o': 0, 'v': [], 'e': ''}},
@@ -1240,7 +1347,7 @@ def run_episode(tid, seed, scen, concr, length, events, stats):
             if src_inf is not None and src_inf.get('laykn') and A['op'] in ('asarray', 'tensor') :
                 ni['laykn'] = True
             if src_inf is not None and src_inf.get('laykn') and A['op'] == 'getitem' and \
-                    all(e['k'] != 'list' for e in A['idx']) and src_inf['k'] == 'leaf':
+                    all(e['k'] in ('int', 'sl') for e in A['idx']) and src_inf['k'] == 'leaf':
                 ni['laykn'] = True
         vals, sh = w.observe()
         events.append({'tid': tid, 'act': A, 'init': {'bufs': [], 'objs': []}, 'obs': {'vals': vals, 'sh': sh, 'ret': ret},
@@ -1254,14 +1361,16 @@ def run_episode(tid, seed, scen, concr, length, events, stats):
 
 def driver_concrs(scen):
     if scen in ('C', 'Q'):
-        return [Concr('float64'), Concr('float32', flavour='ts'), Concr('float64', weight=2.0), Concr('float32')]
+        return [Concr('float64'), Concr('float32', flavour='ts'), Concr('float64', weight=2.0), Concr('float32'),
+                Concr('float64', weight='array')]
     if scen == 'D':
         return [Concr('float64'), Concr('float32', flavour='ts'), Concr('float64', flavour='ts'), Concr('float32')]
     if scen == 'L':
         return [Concr('float64', mult=34), Concr('float32', mult=33), Concr('float64', mult=1), Concr('int64', mult=40, flavour='ts'),
                 Concr('float64', mult=50, weight=2.0), Concr('float64', mult=16667)]
     return [Concr('float64'), Concr('float32', weight=2.0, flavour='ts'), Concr('int64', flavour='ts'),
-            Concr('float64', flavour='ts', exponent=1.0), Concr('float32'), Concr('int32', flavour='ts')]
+            Concr('float64', flavour='ts', exponent=1.0), Concr('float32'), Concr('int32', flavour='ts'),
+            Concr('float64', weight='array')]
 
 
 # ----------------------------------------------------------------------------------------------------------------
@@ -1489,7 +1598,7 @@ def run_stage(ctx):
         raise MachineryError('views: unknown TLC job %r' % (job,))
 
     # big profiles first so that the pool drains evenly
-    order = ['T2', 'T1', 'PS', 'DS', 'CX', 'LC', 'SI', 'PN']
+    order = ['T2', 'T1', 'PS', 'DS', 'CX', 'LC', 'Z0', 'SI', 'PN']
     jobs = [('profile', p) for p in order] + [('laws',), ('impl',), ('impl-without-precopy',), ('setimpl',), ('setimpl-empty-index-returns',), ('bogus',)] + \
            [('selftest', which, pth, tid) for which, pth, tid in selftest]
     pool = ThreadPoolExecutor(max_workers=8 if quick else 6)
